@@ -83,6 +83,46 @@ def tail_calls(idx, tails):
     return out
 
 
+
+TAIL_ORDER = {"cos_2": 2, "sin_3": 3, "cos_4": 4, "sin_5": 5, "cos_6": 6}
+
+
+def tail_series(name, x2):
+    """Taylor tail detail::<name> of a squared-argument series (the library's own helper, decided by J1J2 at its own switch)"""
+    n = TAIL_ORDER[name]
+    x = x2.sqrt()
+    base = x.cos() if n % 2 == 0 else x.sin()
+    # subtract the Taylor polynomial of degree < n
+    from math import factorial
+    k = 0 if n % 2 == 0 else 1
+    sgn = 1
+    while k < n:
+        base = base - (x ** k) * Fraction(sgn, factorial(k))
+        k += 2
+        sgn = -sgn
+    return base / (x ** n)
+
+
+def tail_value(name, x2):
+    """numeric value of the tail, summed from its series for small arguments"""
+    import math
+    n = TAIL_ORDER[name]
+    if x2 > 1.0:
+        x = math.sqrt(x2)
+        base = math.cos(x) if n % 2 == 0 else math.sin(x)
+        k, sgn = (0 if n % 2 == 0 else 1), 1
+        while k < n:
+            base -= sgn * x ** k / math.factorial(k)
+            k += 2
+            sgn = -sgn
+        return base / x ** n
+    tot, sgn = 0.0, (1 if (n // 2) % 2 == 0 else -1)
+    for j in range(0, 12):
+        tot += sgn * x2 ** j / math.factorial(2 * j + n)
+        sgn = -sgn
+    return tot
+
+
 class Env:
     """Lazy evaluation of locals of the enclosing function into the series domain."""
 
@@ -148,6 +188,8 @@ class Env:
                 return args[0].asin()
             if base == "atan":
                 return args[0].atan()
+            if base in TAIL_ORDER:
+                return tail_series(base, args[0])
             if base == "abs":
                 return args[0]
             raise jet.Unsupported("call %s" % nm)
@@ -219,6 +261,10 @@ class ErrEnv(Env):
                 else:
                     d = 1.0
                 return r, d * ex + self.u * self.mag(r)
+            if base in TAIL_ORDER:
+                x, ex = args[0]
+                r = tail_series(base, x)
+                return r, ex + self.u * self.mag(r)
             if base in ("acos", "asin"):
                 x, ex = args[0]
                 r = x.acos() if base == "acos" else x.asin()
@@ -297,6 +343,8 @@ class NumEnv:
         if t == "call":
             base = (e[1] if isinstance(e[1], str) else "").split("::")[-1]
             args = [self.ev(a) for a in e[2]]
+            if base in TAIL_ORDER:
+                return tail_value(base, args[0])
             f = {"sqrt": math.sqrt, "sin": math.sin, "cos": math.cos, "tan": math.tan, "abs": abs, "fabs": abs, "atan2": math.atan2,
                  "atan": math.atan, "acos": math.acos, "asin": math.asin, "exp": math.exp, "log": math.log}.get(base)
             if f is None:
@@ -351,6 +399,145 @@ def feasible_return(br):
     return None
 
 
+
+class NumErrEnv(NumEnv):
+    """first-order rounding model evaluated numerically at one angle: every node is (value, absolute error bound); unit roundoff u per
+    operation and elementary function; the angle itself is exact"""
+
+    def __init__(self, fn_node, num_bindings, u):
+        super().__init__(fn_node, num_bindings)
+        self.u = u
+        self.ecache = {}
+
+    def eve(self, e):
+        import math
+        t = e[0]
+        key = A.show(e)
+        if key in self.bound:
+            return float(self.bound[key]), 0.0
+        if t == "num":
+            return float(e[1]), 0.0
+        if t == "ref":
+            name, did = e[1], e[2]
+            if name in self.bound:
+                return float(self.bound[name]), 0.0
+            if did in self.ecache:
+                return self.ecache[did]
+            if did in self.vars:
+                r = self.eve(A.to_expr(self.vars[did][1]))
+                self.ecache[did] = r
+                return r
+            raise jet.Unsupported("free variable %s" % name)
+        if t == "neg":
+            v, er = self.eve(e[1])
+            return -v, er
+        if t == "ctor" and len(e[2]) == 1:
+            return self.eve(e[2][0])
+        if t == "cond":
+            return self.eve(e[2]) if self.ev(e[1]) else self.eve(e[3])
+        if t == "op":
+            op = e[1]
+            (a, ea), (b, eb) = self.eve(e[2]), self.eve(e[3])
+            if op in ("+", "-"):
+                r = a + b if op == "+" else a - b
+                return r, ea + eb + self.u * abs(r)
+            if op == "*":
+                r = a * b
+                return r, abs(a) * eb + abs(b) * ea + self.u * abs(r)
+            if op == "/":
+                if b == 0:
+                    raise jet.Unsupported("division by zero at the evaluation angle")
+                r = a / b
+                return r, ea / abs(b) + abs(a) * eb / (b * b) + self.u * abs(r)
+            raise jet.Unsupported("operator %s" % op)
+        if t == "call":
+            base = (e[1] if isinstance(e[1], str) else "").split("::")[-1]
+            args = [self.eve(a) for a in e[2]]
+            x, ex = args[0]
+            if base in TAIL_ORDER:
+                r = tail_value(base, x)
+                return r, ex + self.u * abs(r)
+            if base in ("sin", "cos"):
+                r = math.sin(x) if base == "sin" else math.cos(x)
+                return r, ex + self.u * max(abs(r), 0.0) + (self.u * abs(x) if abs(r) < 1e-3 else 0.0)
+            if base == "sqrt":
+                r = math.sqrt(x)
+                return r, 0.5 * ex / max(r, 1e-300) + self.u * r
+            if base in ("abs", "fabs"):
+                return abs(x), ex
+            if base == "tan":
+                r = math.tan(x)
+                return r, ex * (1 + r * r) + self.u * abs(r)
+            if base == "atan2":
+                (y, ey), (xx, exx) = args
+                d2 = max(xx * xx + y * y, 1e-300)
+                r = math.atan2(y, xx)
+                return r, (abs(xx) * ey + abs(y) * exx) / d2 + self.u * abs(r)
+            if base in ("acos", "asin"):
+                r = math.acos(x) if base == "acos" else math.asin(x)
+                return r, (ex + self.u * abs(x)) / max(1 - x * x, 1e-300) ** 0.5 + self.u * abs(r)
+            raise jet.Unsupported("call %s" % e[1])
+        raise jet.Unsupported("expression %s" % A.show(e)[:60])
+
+
+def check_j5(rep, pid, s, fq, r, entries, tol, float_tol):
+    """J5: conditioning of the closed-form branch towards the half turn: the same first-order rounding model as J3, evaluated numerically
+    at theta = pi - 10^-k.  Inverses are only specified up to pi - 1e-3; log only to 1e-7 within 1e-5 of pi."""
+    if r.get("num_bindings") is None or fq in ("SO3Impl::log",):
+        return
+    inv = "inv" in fq.lower()
+    ks = (2, 3) if inv else ((2, 3, 4, 5) if pid == "C02" else (2, 3, 4, 5, 6))
+    for scalar, u, tl in (("double", 2.0 ** -53, tol), ("float", 2.0 ** -24, float_tol)):
+        if tl is None:
+            continue
+        if scalar == "float":
+            ks_ = tuple(k for k in ks if k <= 3)
+        else:
+            ks_ = ks
+        worst = None
+        for k in ks_:
+            th = math.pi - 10.0 ** (-k)
+            try:
+                ne = NumErrEnv(r["fn"], r["num_bindings"](th), u)
+                br = A.strip(r["large_node"])
+                alts = nested_alternatives(br)
+                if alts:
+                    expr = next(ret for c, ret in alts if c is None or NumEnv(r["fn"], r["num_bindings"](th)).ev(c))
+                elif br.get("kind") == "CompoundStmt":
+                    rets = [x for x in A.walk(br) if x.get("kind") == "ReturnStmt"]
+                    if len(rets) != 1:
+                        return
+                    expr = A.kids(rets[0])[0]
+                elif br.get("kind") == "ReturnStmt":
+                    expr = A.kids(br)[0]
+                else:
+                    expr = br
+                e = A.to_expr(expr)
+                items = e[1] if e[0] == "init" else (e[2] if (e[0] == "ctor" and len(e[2]) > 1) else [e])
+                errs = [ne.eve(x) for x in items]
+            except (jet.Unsupported, StopIteration) as ex:
+                rep.broke("J5: cannot evaluate the rounding model of %s at pi - 1e-%d: %s" % (fq, k, ex))
+                return
+            for i, w in entries:
+                if i >= len(errs):
+                    continue
+                val, err = errs[i]
+                eff = err * wfun(w)(th)
+                if worst is None or eff > worst[0]:
+                    worst = (eff, i, w, k, err)
+        if worst is None:
+            continue
+        eff, i, w, k, err = worst
+        inst = "coeff%d%s near pi:%s" % (i, ("@" + w["caller"]) if "caller" in w else "", scalar)
+        ok = eff < 100 * tl
+        rep.instance("J5", fq, inst, ok=ok, sample={"file": fe.rel(s.file), "line": s.line, "angle": "pi - 1e-%d" % k, "predicted_relative_effect": eff, "tolerance": tl})
+        if not ok:
+            rep.violation(Finding("J5", fq, "coeff%d near pi" % i,
+                                  "closed-form branch `%s` is ill-conditioned towards the half turn: at theta = pi - 1e-%d (%s) rounding is amplified to an absolute "
+                                  "error of about %.2g, predicted relative effect %.2g (weight %s*theta^%s) vs tolerance %g of %s"
+                                  % (r["large_txt"][i] if i < len(r["large_txt"]) else "?", k, scalar, err, eff, w["c"], w.get("p", 0), tl, pid),
+                                  s.file, s.line, scalar=scalar))
+
 def branch_errors(env, br):
     br = A.strip(br)
     if br.get("kind") == "CompoundStmt":
@@ -403,6 +590,68 @@ def branch_value(env, br):
     return [env.ev(e)], [A.show(e)]
 
 
+
+class WrongSwitchVariable(Exception):
+    pass
+
+
+def input_roots(e, env0, params, depth=0):
+    """input accessors (printed) an expression depends on, expanding locals: e.g. {a_in.z()} or {a_in.squaredNorm()}"""
+    out = set()
+    if depth > 12 or not isinstance(e, tuple):
+        return out
+    t = e[0]
+    if t == "ref":
+        if e[1] in params:
+            return {e[1]}
+        vd = env0.vars.get(e[2]) if len(e) > 2 else None
+        if vd is not None:
+            return input_roots(A.to_expr(vd[1]), env0, params, depth + 1)
+        return out
+    if t == "mcall":
+        base = e[1]
+        while isinstance(base, tuple) and base[0] == "mcall":
+            base = base[1]
+        if isinstance(base, tuple) and base[0] == "ref" and base[1] in params:
+            return {A.show(e)}
+        out |= input_roots(e[1], env0, params, depth + 1)
+        for a in e[4] or []:
+            out |= input_roots(a, env0, params, depth + 1)
+        return out
+    for x in e[1:]:
+        if isinstance(x, tuple):
+            out |= input_roots(x, env0, params, depth + 1)
+        elif isinstance(x, list):
+            for y in x:
+                out |= input_roots(y, env0, params, depth + 1)
+    return out
+
+
+def angle_exprs(node):
+    """sub-expressions of a branch that must not vanish / are fed to trigonometric functions: denominators and sin/cos/tan arguments"""
+    out = []
+
+    def rec(e):
+        if not isinstance(e, tuple):
+            return
+        if e[0] == "op" and e[1] == "/":
+            out.append(e[3])
+        if e[0] == "call" and str(e[1]).split("::")[-1] in ("sin", "cos", "tan"):
+            out.extend(list(e[2]))
+        for x in e[1:]:
+            if isinstance(x, tuple):
+                rec(x)
+            elif isinstance(x, list):
+                for y in x:
+                    rec(y)
+    for x in A.walk(node):
+        if x.get("kind") == "ReturnStmt" and A.kids(x):
+            rec(A.to_expr(A.kids(x)[0]))
+        elif x.get("kind") == "VarDecl" and A.kids(x):
+            rec(A.to_expr(A.kids(x)[-1]))
+    return out
+
+
 def analyse_site(site, weights):
     """Returns dict with orientation, threshold, per-index series difference."""
     x = site.node
@@ -421,6 +670,21 @@ def analyse_site(site, weights):
     except jet.Unsupported:
         pass
     if lhs[0] != "ref":
+        # is the switch at least decided on the quantity the closed form is singular in?
+        fn0 = site.decl.node
+        env00 = Env(fn0, {})
+        params = {p_.get("name") for p_ in A.params(fn0)}
+        then_small0 = op in ("<", "<=")
+        large0 = (ks[2] if len(ks) > 2 else None) if then_small0 else ks[1]
+        if large0 is not None:
+            need = set()
+            for ae in angle_exprs(large0):
+                need |= input_roots(ae, env00, params)
+            have = input_roots(lhs, env00, params)
+            if need and have and need != have:
+                raise WrongSwitchVariable("the switch is decided on `%s` (inputs %s) but the closed-form branch divides by / takes sin, cos of quantities that depend on %s: "
+                                          "when the former is above the threshold and the latter vanish, the closed form is evaluated at its singularity"
+                                          % (A.show(lhs), sorted(have), sorted(need)))
         raise jet.Unsupported("switch variable is not a plain name: %s" % A.show(lhs))
     vname, vid = lhs[1], lhs[2]
     then_small = op in ("<", "<=")
@@ -545,6 +809,7 @@ def run(rep, pid, idx=None):
     rep.rule("J0", "branch selected for small angles is the polynomial branch; other one is closed-form")
     rep.rule("J3", "closed-form branch just above the switch: first-order rounding model (reported only at >= 100x the tolerance)")
     rep.rule("J4", "a further case split inside a branch of a switch is continuous at the angle where its condition flips", minimum=0)
+    rep.rule("J5", "closed-form branch towards the half turn: first-order rounding model at pi - 10^-k (reported only at >= 100x the tolerance)", minimum=1)
     FLOAT_TOL = {"C02": 1e-3, "C04": 1e-2}
     rep.rule("J1J2", "sup |closed - series| * weight <= tolerance for every coefficient in scope of %s" % pid)
 
@@ -558,11 +823,24 @@ def run(rep, pid, idx=None):
                 entries = [(0, dict(w, caller=c)) for c, ws in tails[fq]["callers"].items() for w in ws if w["prop"] == pid]
                 n_expected = 1
             else:
+                entries, n_expected = None, None
+            if entries is not None and not entries:
                 continue
-            if not entries:
-                continue
+            if entries is None:
+                # a switch the weight table does not know (reported as analysis-broken above): it is still analysed with unit weights, in the
+                # scope its function name suggests, so that a definite defect is reported and not hidden behind the missing entry
+                low = fq.lower()
+                scope = {"C05"} if ("d2r" in low or "q_dq" in low) else ({"C02"} if low.endswith(("::exp", "::log")) else
+                                                                       ({"C04", "C02"} if ("calc_s" in low) else {"C04"}))
+                if pid not in scope:
+                    continue
+                entries, n_expected = "default", None
             try:
                 r = analyse_site(s, W)
+            except WrongSwitchVariable as ex:
+                rep.instance("J0", fq, s.ordinal, ok=False, sample={"file": fe.rel(s.file), "line": s.line})
+                rep.violation(Finding("J0", fq, s.ordinal, str(ex), s.file, s.line))
+                continue
             except jet.Unsupported as ex:
                 rep.broke("cannot abstract switch in %s (%s:%s): %s" % (fq, fe.rel(s.file), s.line, ex))
                 continue
@@ -581,6 +859,9 @@ def run(rep, pid, idx=None):
                                       "branches swapped): small-branch has transcendental=%s, large-branch=%s"
                                       % (r["var"], r["small_transc"], r["large_transc"]), s.file, s.line))
                 continue
+            if entries == "default":
+                entries = [(i, {"prop": pid, "c": 1, "p": 0, "reason": "unit weight: switch not in the weight table"}) for i in range(len(r["large"]))]
+                n_expected = len(r["large"])
             if len(r["small"]) != len(r["large"]) or len(r["small"]) != n_expected:
                 rep.broke("switch in %s returns %d/%d values, table expects %d" %
                           (fq, len(r["small"]), len(r["large"]), n_expected))
@@ -655,6 +936,7 @@ def run(rep, pid, idx=None):
                                  "(%s vs %s) but worst-case effect %.3g is below tolerance %g -- not a finding"
                                  % (fq, inst, S.short(), C.short(3), eff, tol))
             check_j4(rep, pid, s, fq, r, entries, theta, tol)
+            check_j5(rep, pid, s, fq, r, entries, tol, FLOAT_TOL.get(pid))
     return rep
 
 
